@@ -18,5 +18,6 @@ def run(chk):
     chk.exhaustive = True
     cc.run_random(chk, codecprogs.random_codec_program, 3000 if thorough else 700, 10, golomb=True)
     cc.run_random(chk, codecprogs.golomb_stream_program, 6000 if thorough else 1200, 101)
+    cc.run_random(chk, codecprogs.golomb_history_program, 1500 if thorough else 400, 102)
     chk.flush()
     return chk.finish(rule=RULE, assumptions=ASSUME)
